@@ -305,7 +305,7 @@ func (vc *VC) applyContract(fr *Frame, st *State, c *Contract, call *ssa.CallCom
 	// implicit: pointer receiver/params non-nil unless nullable
 	for i := 0; i < c.NIn; i++ {
 		if _, ok := c.Params[i].Type().Underlying().(*types.Pointer); ok && !contains(c.Raw.Nullable, c.Params[i].Name()) {
-			vc.oblige(st, "pre@"+shortFn(c.Fn), "nonnil."+c.Params[i].Name(), not(eq(args[i].L[0], bvLit(64, 0))), call.Pos(), vc.safetyProps)
+			vc.oblige(st, "pre@"+c.short(), "nonnil."+c.Params[i].Name(), not(eq(args[i].L[0], bvLit(64, 0))), call.Pos(), vc.safetyProps)
 		}
 	}
 	for _, cl := range c.Clauses {
@@ -313,7 +313,7 @@ func (vc *VC) applyContract(fr *Frame, st *State, c *Contract, call *ssa.CallCom
 			continue
 		}
 		g := vc.specBool(env, cl.Expr)
-		vc.oblige(st, "pre@"+shortFn(c.Fn), cl.Raw.Label, g, call.Pos(), vc.safetyProps)
+		vc.oblige(st, "pre@"+c.short(), cl.Raw.Label, g, call.Pos(), vc.safetyProps)
 	}
 	// havoc the assigned locations
 	targets := vc.assignTargets(c, env, -1)
@@ -324,7 +324,7 @@ func (vc *VC) applyContract(fr *Frame, st *State, c *Contract, call *ssa.CallCom
 	st.alloc = na
 	// results
 	var results []Val
-	sig := c.Fn.Signature
+	sig := c.sig()
 	for i := 0; i < sig.Results().Len(); i++ {
 		t := sig.Results().At(i).Type()
 		v := Val{T: t}
@@ -346,7 +346,10 @@ func (vc *VC) applyContract(fr *Frame, st *State, c *Contract, call *ssa.CallCom
 
 func (vc *VC) trustedNote(c *Contract) {
 	if c.Raw.Trusted {
-		vc.trusted["assumed contract on repository function "+c.Fn.String()] = true
+		vc.trusted["assumed contract on repository function "+c.Key()] = true
+	}
+	if c.Fn == nil {
+		vc.trusted["interface-method contract "+c.short()+" (justified for repository implementations by subtype obligations)"] = true
 	}
 }
 
@@ -357,6 +360,20 @@ func contains(xs []string, x string) bool {
 		}
 	}
 	return false
+}
+
+func (c *Contract) short() string {
+	s := c.Key()
+	s = strings.ReplaceAll(s, modPath+"/", "")
+	s = strings.ReplaceAll(s, modPath+".", "")
+	return s
+}
+
+func (c *Contract) sig() *types.Signature {
+	if c.Fn != nil {
+		return c.Fn.Signature
+	}
+	return c.IfaceSig
 }
 
 func shortFn(fn *ssa.Function) string {
@@ -414,7 +431,11 @@ func (vc *VC) evalLoc(e *SpecEnv, x ast.Expr, whole bool) (res []locTarget) {
 	case *ast.Ident:
 		obj := info.Uses[x]
 		if gv, ok := obj.(*types.Var); ok && gv.Parent() == gv.Pkg().Scope() {
-			return []locTarget{{name: globHeapName(gv.Pkg().Name() + "." + gv.Name()), whole: true}}
+			var out []locTarget
+			for k, s := range nestedLeafSorts(gv.Type()) {
+				out = append(out, locTarget{name: fmt.Sprintf("%s!%d", globHeapName(gv.Pkg().Name()+"."+gv.Name()), k), sort: s, whole: true})
+			}
+			return out
 		}
 		// slice-typed parameter: its contents
 		v := e.eval(x)
@@ -459,12 +480,52 @@ func (vc *VC) evalLoc(e *SpecEnv, x ast.Expr, whole bool) (res []locTarget) {
 		if id, ok := x.Fun.(*ast.Ident); ok {
 			fobj, _ = info.Uses[id].(*types.Func)
 		}
+		if id, ok := x.Fun.(*ast.Ident); ok && id.Name == "govcOld" {
+			return vc.evalLoc(e.inOld(), x.Args[0], whole)
+		}
+		if fobj == nil {
+			if se, ok := x.Fun.(*ast.SelectorExpr); ok {
+				fobj, _ = info.Uses[se.Sel].(*types.Func)
+			}
+		}
 		if g, ok := vc.w.Ghosts[fobj]; ok {
 			if len(x.Args) == 0 {
 				return []locTarget{{name: ghostHeapName(g), whole: true}}
 			}
 			a := e.eval(x.Args[0])
-			return []locTarget{{name: ghostHeapName(g), key: ghostKey(a)}}
+			return []locTarget{{name: ghostHeapName(g), key: ghostKey(a), sort: vc.ghostSorts[ghostHeapName(g)]}}
+		}
+		if sp, ok := vc.w.Specs[fobj]; ok {
+			// location denoted by a spec function: expand its body
+			ne := &SpecEnv{vc: vc, pkg: sp.Pkg, vars: map[types.Object]Val{}, st: e.st, old: e.old}
+			k := 0
+			for _, fl := range sp.Decl.Type.Params.List {
+				for _, nm := range fl.Names {
+					ne.vars[sp.Pkg.TypesInfo.Defs[nm]] = e.eval(x.Args[k])
+					k++
+				}
+			}
+			ne.oldVars = ne.vars
+			body := sp.Decl.Body.List[0].(*ast.ReturnStmt).Results[0]
+			for {
+				// strip conversions
+				if ce, ok := body.(*ast.CallExpr); ok {
+					if tv, ok := sp.Pkg.TypesInfo.Types[ce.Fun]; ok && tv.IsType() {
+						body = ce.Args[0]
+						continue
+					}
+				}
+				if pe, ok := body.(*ast.ParenExpr); ok {
+					body = pe.X
+					continue
+				}
+				break
+			}
+			return vc.evalLoc(ne, body, whole)
+		}
+		// conversion around a location
+		if tv, ok := info.Types[x.Fun]; ok && tv.IsType() {
+			return vc.evalLoc(e, x.Args[0], whole)
 		}
 		e.fail(x, "unsupported assigns call")
 	}
@@ -657,6 +718,7 @@ func (vc *VC) lookupLocal(fr *Frame, li *loopInfo, name string, phiVals map[*ssa
 // loopModified computes the heaps stored to inside the loop.
 func (vc *VC) loopModified(fr *Frame, li *loopInfo, st *State) ([]locTarget, bool) {
 	var ts []locTarget
+	var pending []pendingTarget
 	allocs := false
 	var scanFn func(fn *ssa.Function, blocks map[*ssa.BasicBlock]bool, top bool, depth int)
 	scanFn = func(fn *ssa.Function, blocks map[*ssa.BasicBlock]bool, top bool, depth int) {
@@ -713,6 +775,12 @@ func (vc *VC) loopModified(fr *Frame, li *loopInfo, st *State) ([]locTarget, boo
 					}
 					if callee, ok := cc.Value.(*ssa.Function); ok && !cc.IsInvoke() {
 						if c, ok := vc.w.Contracts[callee.String()]; ok && !c.Raw.Inline {
+							if top {
+								if pts, ok := vc.preciseCallTargets(fr, c, cc, st); ok {
+									pending = append(pending, pts...)
+									continue
+								}
+							}
 							for _, n := range vc.contractAssignNames(c) {
 								ts = append(ts, n)
 							}
@@ -726,7 +794,14 @@ func (vc *VC) loopModified(fr *Frame, li *loopInfo, st *State) ([]locTarget, boo
 						continue
 					}
 					if cc.IsInvoke() {
-						ts = append(ts, vc.externEffects("("+typeKey(cc.Value.Type())+")."+cc.Method.Name(), cc)...)
+						iname := "(" + typeKey(cc.Value.Type()) + ")." + cc.Method.Name()
+						if c, ok := vc.w.IfaceContracts[iname]; ok && top {
+							if pts, ok := vc.preciseCallTargets(fr, c, cc, st); ok {
+								pending = append(pending, pts...)
+								continue
+							}
+						}
+						ts = append(ts, vc.externEffects(iname, cc)...)
 						continue
 					}
 					ts = append(ts, vc.externEffects("dyncall:"+typeKey(cc.Value.Type()), cc)...)
@@ -735,7 +810,80 @@ func (vc *VC) loopModified(fr *Frame, li *loopInfo, st *State) ([]locTarget, boo
 		}
 	}
 	scanFn(fr.fn, li.blocks, true, 0)
+	// precise targets are valid only if the heaps read to compute their keys are not modified in the loop
+	modified := map[string]bool{}
+	for _, t := range ts {
+		modified[t.name] = true
+	}
+	for _, p := range pending {
+		modified[p.t.name] = true
+	}
+	for _, p := range pending {
+		ok := true
+		for r := range p.reads {
+			if modified[r] {
+				ok = false
+			}
+		}
+		t := p.t
+		if !ok {
+			t.whole, t.key = true, ""
+		}
+		ts = append(ts, t)
+	}
 	return ts, allocs
+}
+
+type pendingTarget struct {
+	t     locTarget
+	reads map[string]bool
+}
+
+// preciseCallTargets evaluates the assigns clauses of a callee for a call whose
+// arguments are all defined before the loop.
+func (vc *VC) preciseCallTargets(fr *Frame, c *Contract, cc *ssa.CallCommon, st *State) (out []pendingTarget, ok bool) {
+	var args []Val
+	if cc.IsInvoke() {
+		v, have := fr.vals[cc.Value]
+		if !have {
+			return nil, false
+		}
+		args = append(args, v)
+	}
+	for _, a := range cc.Args {
+		switch x := a.(type) {
+		case *ssa.Const:
+			args = append(args, vc.value(fr, x))
+		default:
+			v, have := fr.vals[a]
+			if !have {
+				return nil, false
+			}
+			args = append(args, v)
+		}
+	}
+	defer func() {
+		if r := recover(); r != nil {
+			vc.readLog = nil
+			out, ok = nil, false
+		}
+	}()
+	env := vc.contractEnv(c, args, nil, st, nil)
+	for _, cl := range c.Clauses {
+		if cl.Raw.Kind != "assigns" || cl.Raw.Loop != -1 {
+			continue
+		}
+		for k, loc := range cl.Locs {
+			vc.readLog = map[string]bool{}
+			ts := vc.evalLoc(env, loc, cl.Whole[k])
+			reads := vc.readLog
+			vc.readLog = nil
+			for _, t := range ts {
+				out = append(out, pendingTarget{t: t, reads: reads})
+			}
+		}
+	}
+	return out, true
 }
 
 // storeTargets: heaps (and precise keys, when loop invariant) written by a store through addr.
@@ -785,7 +933,11 @@ func (vc *VC) storeTargets(fr *Frame, addr ssa.Value, top bool) []locTarget {
 	rootT := deref(cur.Type())
 	t := deref(addr.Type())
 	if g, ok := cur.(*ssa.Global); ok {
-		return []locTarget{{name: globHeapName(g.Pkg.Pkg.Name() + "." + g.Name()), whole: true}}
+		var out []locTarget
+		for k, s := range nestedLeafSorts(g.Type().(*types.Pointer).Elem()) {
+			out = append(out, locTarget{name: fmt.Sprintf("%s!%d", globHeapName(globalName(g)), k), sort: s, whole: true})
+		}
+		return out
 	}
 	d := &PtrDesc{Root: rObj, Ref: "?", RootT: rootT, Path: strings.Join(path, "."), T: t}
 	var out []locTarget
@@ -874,7 +1026,23 @@ func (vc *VC) enterLoop(fr *Frame, li *loopInfo, in *State) *State {
 	}
 	// 2. havoc
 	mods, allocs := vc.loopModified(fr, li, in)
-	// explicit loop assigns clauses add nothing here (modified set is computed)
+	// explicit loop assigns clauses give precise keys for heaps the analysis can only havoc wholesale;
+	// they are checked on every back edge (checkLoopBack)
+	user := vc.assignTargets(vc.curContract, envIn, li.ordinal)
+	if len(user) > 0 {
+		li.userTargets = user
+		covered := map[string]bool{}
+		for _, u := range user {
+			covered[u.name] = true
+		}
+		var kept []locTarget
+		for _, m := range mods {
+			if !covered[m.name] {
+				kept = append(kept, m)
+			}
+		}
+		mods = append(kept, user...)
+	}
 	st := in.clone()
 	vc.havocTargets(st, mods)
 	if allocs {
@@ -928,6 +1096,32 @@ func (vc *VC) checkLoopBack(fr *Frame, li *loopInfo, src *ssa.BasicBlock, st *St
 	env := vc.localEnv(fr, li, st, phiVals)
 	for _, cl := range vc.loopClauses(li, "invariant") {
 		vc.oblige(st, fmt.Sprintf("inv-pres.%d", li.ordinal), cl.Raw.Label, vc.specBool(env, cl.Expr), src.Instrs[len(src.Instrs)-1].Pos(), vc.clauseProps(vc.curContract, cl))
+	}
+	// loop frame: heaps with user-supplied assigns keys change only at those keys
+	byName := map[string][]locTarget{}
+	for _, u := range li.userTargets {
+		byName[u.name] = append(byName[u.name], u)
+	}
+	for name, us := range byName {
+		srt := vc.heapSort[name]
+		head := vc.heapTerm(li.havocSt, name, srt)
+		cur := vc.heapTerm(st, name, srt)
+		if head == cur {
+			continue
+		}
+		whole := false
+		var conds []string
+		key := vc.freshConst("lfk", indexSortOf(srt))
+		for _, u := range us {
+			if u.whole || u.key == "" {
+				whole = true
+			}
+			conds = append(conds, not(eq(key, u.key)))
+		}
+		if whole {
+			continue
+		}
+		vc.oblige(st, fmt.Sprintf("loop-frame.%d", li.ordinal), name, imp(and(conds...), eq(sel(cur, key), sel(head, key))), src.Instrs[len(src.Instrs)-1].Pos(), nil)
 	}
 	if ds := vc.loopClauses(li, "decreases"); len(ds) > 0 {
 		v := env.eval(ds[0].Expr)
